@@ -24,7 +24,15 @@ LEVEL = 'exploration'
 
 
 # ---------------------------------------------------------------- fixed evidence sets
-BOUNDS = {1: [(-1.0, 3.0)], 2: [(-1.0, 3.0), (0.0, 2.0)]}
+BOUNDS_A = {1: [(-1.0, 3.0)], 2: [(-1.0, 3.0), (0.0, 2.0)]}
+# bounds that are not binary fractions: a bounds test written as |x - centre| <= half-width rounds differently there
+BOUNDS_B = {1: [(0.2, 0.9)], 2: [(0.1, 0.7), (-0.3, 1.1)]}
+BOUNDS = dict(BOUNDS_A)
+
+
+def use_bounds(case):
+    BOUNDS.clear()
+    BOUNDS.update(BOUNDS_B if case.get('bfam') == 'b' else BOUNDS_A)
 
 
 def evidence(dim, n, fn):
@@ -98,7 +106,9 @@ def grid(dim, dense):
     for lo, hi in BOUNDS[dim]:
         eps = 1e-9 * (hi - lo)
         inside = list(np.linspace(lo, hi, 7 if dense else 5))
-        per.append({'in': inside, 'out': [lo - eps, hi + eps, lo - 1.0, hi + 5.0]})
+        inside[0], inside[-1] = lo, hi          # the bounds themselves, exactly
+        per.append({'in': inside, 'out': [lo - eps, hi + eps, lo - 1.0, hi + 5.0,
+                                          float(np.nextafter(lo, -np.inf)), float(np.nextafter(hi, np.inf))]})
     for combo in itertools.product(*[p['in'] for p in per]):
         pts.append((np.array(combo, dtype=float), True))
     for j in range(dim):
@@ -118,6 +128,7 @@ def ref_logpost(gp, prior, thr, x):
 def run_gp(case):
     from elfi.methods.posteriors import BolfiPosterior
     dim, n, fn, hyper = case['dim'], case['n'], case['fn'], case['hyper']
+    use_bounds(case)
     gp = fit(dim, n, fn, hyper)
     cond = cond_number(gp)
     if cond > 1e8:
@@ -256,6 +267,7 @@ def batch_for(dim, shape_kind, k):
 def run_history(case):
     from elfi.methods.bo.gpy_regression import GPyRegression
     dim = case['dim']
+    use_bounds(case)
     names = ['a', 'b'][:dim]
     gp = GPyRegression(names, bounds={k: BOUNDS[dim][i] for i, k in enumerate(names)}, max_opt_iters=10)
     refX = np.zeros((0, dim))
@@ -320,6 +332,9 @@ def run(ctx):
         for n in ns:
             for fn in fns:
                 for hy in hypers:
+                    if (n, fn) == (ns[0], fns[0]) or not q:
+                        cases.append({'kind': 'gp', 'dim': dim, 'n': n, 'fn': fn, 'hyper': hy, 'bfam': 'b',
+                                      'thresholds': ['explicit'] if q else ['min', 'explicit', 'zero'], 'dense': not q})
                     cases.append({'kind': 'gp', 'dim': dim, 'n': n, 'fn': fn, 'hyper': hy,
                                   'thresholds': ['min', 'explicit', 'zero'] if q else
                                   ['min', 'median', 'explicit', 'zero', 'int-zero', 'negative'],
@@ -346,7 +361,8 @@ def run(ctx):
                                                                       ['update', '2xd', 1], ['on'], ['predict']]})
     ctx.run_cases(run_history, hcases, 'histories', sample_every=max(1, len(hcases) // 4))
     ctx.rule = ('fitted-gps: full product dimension x evidence size x target function x hyper-parameter state; per GP a full '
-                'grid of query points (inside incl. exact bounds, 1e-9 outside, far outside) x thresholds x input shapes; '
+                'grid of query points (inside incl. exact bounds, one ulp and 1e-9 outside, far outside) x thresholds x input shapes, '
+                'for binary-fraction and for decimal bounds; '
                 'evaluations = judged (GP, threshold, point) triples; histories: every update sequence of depth <= 3 over '
                 'three batch shapes, and every interleaving of update / sampling-mode on / off / predict up to the depth; '
                 'distinct by construction')
